@@ -28,6 +28,11 @@ def real_stream(fedjax, n, bs, epochs, steps, drop, skip, seed, variant, chain, 
   ds = fedjax.ClientDataset(raw, fedjax.BatchPreprocessor(bat.CHAINS[chain]))
   # a seed is any integer a caller has at hand: a Python int, or a NumPy integer scalar (e.g. drawn per client from a RandomState)
   seed_obj = seed if seed is None else (seed, np.int64(seed), np.int32(seed % 2**31), np.uint32(seed % 2**32))[(n + bs) % 4]
+  # ... and so are the sizes and bounds
+  npi = (lambda x: x, np.int64, np.int32)[(n + 2 * bs) % 3]
+  bs = npi(bs)
+  epochs = epochs if epochs == NONE else npi(epochs)
+  steps = steps if steps == NONE else npi(steps)
   hp = fedjax.ShuffleRepeatBatchHParams(batch_size=bs, num_epochs=None if epochs == NONE else epochs,
                                         num_steps=None if steps == NONE else steps, drop_remainder=drop, seed=seed_obj,
                                         skip_shuffle=skip)
